@@ -35,6 +35,9 @@ type c02mon struct {
 	timers    int
 	histAlpha []string
 	pubAlpha  []string
+	pub2Alpha []string
+	pubs      int
+	first     *bpub
 	ended     bool
 	failed    bool // the client rejected / never answered the REGISTER: nothing more is owed
 }
@@ -100,7 +103,14 @@ func (m *c02mon) After(g *gw.GW, ev string, sn []gw.SNOut, mq []gw.MQOut, setup 
 			}
 		case st.kind == "B" && st.mq.Type == refmqtt.PUBLISH:
 			q := st.mq
+			m.first = m.pub
 			m.pub = &bpub{topic: q.Topic, qos: q.QoS, retain: q.Retain, payload: string(q.Payload)}
+			m.pubs++
+			m.failed = false
+			m.timers = 0
+			for k := range m.pending {
+				delete(m.pending, k)
+			}
 			newPub = true
 			knewBefore = m.clientKnows(q.Topic)
 		case st.kind == "T":
@@ -138,6 +148,13 @@ func (m *c02mon) After(g *gw.GW, ev string, sn []gw.SNOut, mq []gw.MQOut, setup 
 				add("unexpected-publish", "PUBLISH %v without a broker PUBLISH", p)
 				continue
 			}
+			if m.pubs == 2 && p.MsgID != 6 && m.first != nil {
+				// a retransmission of the first message (its exchange may still be open)
+				if n, ok := m.resolve(p); !ok || n != m.first.topic || !p.DUP {
+					add("first-publish-retransmission-differs", "retransmission %v of the first message (topic %q)", p, m.first.topic)
+				}
+				continue
+			}
 			name, ok := m.resolve(p)
 			switch {
 			case !ok:
@@ -171,7 +188,7 @@ func (m *c02mon) Key() string {
 	for k, v := range m.pending {
 		pend[k] = fmt.Sprintf("%d:%s", v.TopicID, v.Str)
 	}
-	return fmt.Sprintf("reg=%s pend=%s pub=%v hist=%d t=%d failed=%t", mapKey(m.reg), mapKey(pend), m.pub, m.hist, m.timers, m.failed)
+	return fmt.Sprintf("reg=%s pend=%s pub=%v hist=%d t=%d failed=%t n=%d", mapKey(m.reg), mapKey(pend), m.pub, m.hist, m.timers, m.failed, m.pubs)
 }
 func (m *c02mon) Class() string {
 	switch {
@@ -196,6 +213,16 @@ func (m *c02mon) Next(g *gw.GW) []string {
 		return a
 	}
 	if m.pub.done || m.failed {
+		// the first publish is settled (delivered, REGISTER rejected or given up):
+		// one more publish per topic shows what the session remembers of it
+		if m.pubs >= 2 {
+			return nil
+		}
+		for _, e := range m.pub2Alpha {
+			if p, ok := brokerPkt(e); ok && p.Topic == m.pub.topic {
+				return []string{e}
+			}
+		}
 		return nil
 	}
 	var a []string
@@ -240,6 +267,10 @@ func c02specs() []gw.Spec {
 		gw.Ev("SUBSCRIBE w/# + SUBACK", gw.EvC("", gw.SubscribeName(9, "w/#", 1, false)), suback(9)),
 	}
 	pubs := c02pubAlphabet(thorough)
+	var pubs2 []string
+	for _, topic := range []string{"xy", "p/1", "p/2", "r/1", "r/2", "w/1", "w/2"} {
+		pubs2 = append(pubs2, gw.EvB(fmt.Sprintf("2nd broker PUBLISH{%s q1}", topic), refmqtt.EncPublish(topic, 1, false, false, 6, []byte("2"))))
+	}
 	vals := []string{"", "p/1", "p/2"}
 	var out []gw.Spec
 	for code := 0; code < 81; code++ {
@@ -274,7 +305,7 @@ func c02specs() []gw.Spec {
 		cfg.Predefined = pre2
 		cfg.RetryCount = 2
 		out = append(out, gw.Spec{Name: fmt.Sprintf("cfg%02d:%v", code, pre2), Cfg: cfg, Setup: connectSetup("c1", 30), NewMonitor: func() gw.Monitor {
-			return &c02mon{cfg: pre2, reg: map[uint16]string{}, subNames: map[uint16]string{}, pending: map[uint16]refsn.Pkt{}, maxHist: 3, histAlpha: hist, pubAlpha: pubs}
+			return &c02mon{cfg: pre2, reg: map[uint16]string{}, subNames: map[uint16]string{}, pending: map[uint16]refsn.Pkt{}, maxHist: 3, histAlpha: hist, pubAlpha: pubs, pub2Alpha: pubs2}
 		}})
 	}
 	return out
